@@ -38,6 +38,7 @@ Step(ev) ==
     [] ev.a = "remote" -> RemoteAny(ev.k, ev.t) /\ run' = run /\ Judge(ev)
     [] ev.a = "checkpoint" -> CheckpointWith("trim" \in DOMAIN ev /\ ev.trim) /\ run' = run /\ Judge(ev)
     [] ev.a = "peer" -> Skip /\ (IF ~PeerOk(ev) THEN Verdict("a peer that merged every update does not hold the newest write of a key") ELSE TRUE)
+    [] ev.a = "flush" -> Skip      \* FLUSHALL / FLUSHDB: client data goes, the clock and what the node has seen stay (seen is history)
     [] ev.a = "crash" -> Crash /\ run' = run
     [] ev.a = "recover" -> Recover /\ run' = run /\ (IF "panic" \in DOMAIN ev THEN Verdict("the restart sequence failed") ELSE Judge(ev))
     [] OTHER -> Skip /\ Verdict("panic in code under test")
